@@ -482,6 +482,11 @@ theorem walkLine_split (L i : Nat) (rest r : Bytes) (hi : i + 1 < 10 ^ 9)
 
 /-! ### `pars.Line` on a line without CR/LF followed by LF -/
 
+/-- `splitLine` is the existing `Gts.Pars.line` model of `pars.Line`, as a function of the
+remaining input -/
+theorem line_eq_splitLine (s : Pars.PS) :
+    Pars.line.run' s = (.ok (splitLine s.rest).1, { s with rest := (splitLine s.rest).2 }) := rfl
+
 theorem calcLine_lf (ln t : Bytes) (i n : Nat) (h : noEOL ln) :
     Pars.calcLine (ln ++ 10 :: t) i n false = (i + ln.length, n + 1) := by
   induction ln generalizing i with
